@@ -42,6 +42,29 @@ def run(ctx):
                 else:
                     ctx.violation("C18.R1", "C18.R1/view-does-not-decode/" + r,
                                   "%s: %s no longer percent-decodes although the writer encodes" % (what, r), fb.fns[r].loc())
+    # every non-constant byte string the attribute tag/value writers hand to the sink is the output of percent_encode
+    for w in (G + "io::writer::line::record::attributes::field::tag::write_tag", G + "io::writer::line::record::attributes::field::value::write_value"):
+        f = ctx.anchor("C18.R1", w)
+        if f is None:
+            continue
+        raw = []
+        nwr = 0
+        for g in fb.family(w):
+            for b, c in R.find_calls(g, r"Write::write_all$"):
+                nwr += 1
+                arg = c["args"][1]
+                if R.derives_from_call(g, arg, R.mk_pred("^" + ENC_ATTR.replace("::", "::") + "$")):
+                    continue
+                if R.C.eval_const(g, arg) is not None or _from_constant(g, arg):
+                    continue
+                raw.append((g, b))
+        if raw:
+            ctx.violation("C18.R1", "C18.R1/raw-write/" + w,
+                          "%s hands a byte string to the sink that is neither a constant nor the output of percent_encode: some tag/value "
+                          "(e.g. the 2nd+ element of a multi-valued attribute) is written unescaped" % w, raw[0][0].loc(raw[0][1]))
+        else:
+            ctx.ok("C18.R1", w + " :: all %d write_all() arguments are percent_encode output or constants" % nwr, "", f.loc())
+
     # column 1: encoder present; is there any decoder on the read side?
     if ctx.anchor("C18.R1", ENC_SEQID) is not None:
         wcall = a7.callers_of(fb, ENC_SEQID)
@@ -134,3 +157,28 @@ def run(ctx):
             ctx.violation("C18.R4", "C18.R4/accessors/" + fc.key, "try_from_feature_record no longer reads %s through the feature accessors" % sorted(miss), fc.loc())
         else:
             ctx.ok("C18.R4", fc.key + " reads all nine columns through the lazy accessors", "", fc.loc())
+
+
+def _from_constant(fn, op, depth=0):
+    """Does the operand derive (through refs/casts/arrays) only from constants?"""
+    from .. import cfg as C
+    if depth > 6:
+        return False
+    if C.op_const(op) is not None:
+        return True
+    l = C.op_local(op)
+    if l is None:
+        p = C.op_place(op)
+        l = p[0] if p else None
+    if l is None:
+        return False
+    ds = [d for d in C.defs(fn).get(l, []) if d[0] in ("=", "partial")]
+    if not ds or any(d[0] not in ("=", "partial") for d in C.defs(fn).get(l, [])):
+        return False
+    for d in ds:
+        ops = R.rvalue_operands(d[3])
+        if not ops and d[3][0] != "agg":
+            return False
+        if not all(_from_constant(fn, o, depth + 1) for o in ops):
+            return False
+    return True
